@@ -39,7 +39,7 @@ def run(ctx):
             continue
         h = val[2][0]
         seedexpr[sampler] = (h, idx, ls)
-        is_enum = isinstance(ls.elem, Tup) and ev.t(ls.elem.items[0]) is ls.var and idx is ls.var
+        is_enum = (isinstance(ls.elem, Tup) and ev.t(ls.elem.items[0]) is ls.var and idx is ls.var) or (getattr(ls, 'enum_like', False) and idx is ls.var)
         inj = is_enum and (not contains(T.sub(h, idx), idx) or not contains(T.add(h, idx), idx)) and contains(h, idx)
         ctx.check('C08.R8.1', anchor, 'rng', inj, expected='seed expression affine in the chain index with coefficient +-1 (injective on chains)', found=show(h), sp=b['sp'],
                   why='two chains seeded identically consume the same random stream')
@@ -60,7 +60,8 @@ def run(ctx):
             okd = (T.is_num(d) and T.numval(d) != 0) or d is n or (d[0] == 'poly' and not contains(d, idx) and offset_positive(d, idx, extra=(n,)))
             ctx.check('C08.R8.4.distinct', anchor, 'proposal-vs-acceptance', okd, expected='proposal seed - acceptance seed is a non-zero quantity for every chain (e.g. the number of chains)',
                       found=show(d), sp=b['sp'], why='within a chain the two generators must not be seeded identically')
-            base_ok = pv[2][0] is fld(index_term(ls.lh[[k for k in ls.lh if keyrepr(k) == 'self.chains'][0]], idx), 'proposal')
+            ck_ = [k for k in ls.lh if keyrepr(k) == 'self.chains']
+            base_ok = pv[2][0] is fld(index_term(ls.lh[ck_[0]] if ck_ else selff('chains'), idx), 'proposal')
             ctx.check('C08.R8.4.own', anchor, 'proposal-base', base_ok, expected='chain i re-seeds its own proposal', found=show(pv[2][0]), sp=b['sp'],
                       why='the re-seeded proposal must be the chain\'s own object')
     # ---------------------------------------------------------------- R8.2 / R8.3 constructors
